@@ -174,10 +174,10 @@ class World(object):
                 self.apply(['emit', n, 9])
 
 
-def run_history(env, ops, probe=True):
+def run_history(env, ops, probe=True, use_parser=False):
     """-> (failure or None, model world)"""
     from hotxlfp.tinyemitter import Emitter
-    real = World(Emitter())
+    real = World(env.new_parser() if use_parser else Emitter())
     model = World(ModelEmitter())
     for i, op in enumerate(ops):
         try:
@@ -333,4 +333,35 @@ def run_history_model_only(ops):
     return None, model
 
 
-SUBS = [Tree(), Graph()]
+class ParserAsEmitter(Sub):
+    name = 'c20.parser_as_emitter'
+    rule = ('hotxlfp.Parser is the emitter the host actually uses: every operation sequence of length <= 2 on a fresh '
+            'Parser object (event names a/b do not collide with the parser\'s own events), compared with the model; '
+            'non-trivial = history with a delivery')
+    min_cases = 30
+    min_nontrivial = 100
+
+    def cases(self, tier, unit):
+        for i in range(len(OPS)):
+            yield ['p', i]
+
+    def check(self, env, case):
+        if case[0] == 'h':
+            f, _ = run_history(env, case[1], use_parser=True)
+            return f
+        first = OPS[case[1]]
+        out = []
+        for h in [[first]] + [[first, o] for o in OPS]:
+            f, model = run_history(env, h, use_parser=True)
+            env.evals += 1
+            env.cov['traces_validated_against_impl'] = env.cov.get('traces_validated_against_impl', 0) + 1
+            if any(x[0] != '#' for x in model.log):
+                env.nt()
+            if f:
+                out.append(f)
+                if len(out) > 3:
+                    break
+        return out
+
+
+SUBS = [Tree(), Graph(), ParserAsEmitter()]
